@@ -25,12 +25,12 @@ def pick_params(rng, tier):
   return dict(nmax=25 if tier == 'quick' else 40, shape=None)
 
 
-def run_plain(ctx, rng, spec, start, script, host_cls=HsmEventProcessor, spied=False, query_rng=None, unset=None):
+def run_plain(ctx, rng, spec, start, script, host_cls=HsmEventProcessor, spied=False, query_rng=None, unset=None, host_kwargs=None):
   """Runs and compares; returns list of findings (prop, key, what, witness) --
   at most one (the run stops at the first disagreement) -- and fills counters."""
   run = cg.Run(spec, spied=spied)
   model = cg.Model(spec)
-  chart = cg.counted_host(host_cls, run)()
+  chart = cg.counted_host(host_cls, run)(**(host_kwargs or {}))
   names = spec['names']
   wit = {'spec': spec, 'start': start, 'script': script}
   if unset:
@@ -61,9 +61,15 @@ def run_plain(ctx, rng, spec, start, script, host_cls=HsmEventProcessor, spied=F
       for _ in range(query_rng.randint(1, 2)):
         x = query_rng.randrange(spec['n'])
         q = 'is_in' if query_rng.random() < 0.6 else 'child_state'
+        if hasattr(chart, 'current_state') and query_rng.random() < 0.4:
+          q = 'current_state'        # queued hosts: the name query (it answers None on a chart that is not instrumented)
         queries.append((k, q, names[x]))
         try:
-          getattr(chart, q)(run.fns[x])
+          if q == 'current_state':
+            chart.current_state()
+            ctx.count('current_state_queries_between_steps')
+          else:
+            getattr(chart, q)(run.fns[x])
         except cg.Budget:
           return [('C22', 'C22/query-does-not-terminate', '%s exceeded the step budget' % q, wit)]
         except Exception:
